@@ -2,67 +2,55 @@
    Rocq cannot observe a crash; what is proved is that the modelled builder — the code that turns
    the blocks of ANY note into arena nodes (SectionsBuilder + GraphBuilder, every `expect`,
    `unwrap` and `panic!` of which is an explicit Panic result of the model) — has no reachable
-   panic site and terminates, on the stated input class, in every arena; and that the walks up
+   panic site and terminates, on every input, in every arena; and that the walks up
    the prev links terminate in a well-formed arena (C20_owner_total).  Every other operation is
    exercised on every run (Check_C03.v). *)
 From IweV Require Import Str Text Ast RelPath Arena Project Library BuilderFacts.
 Local Open Scope string_scope.
 Local Open Scope list_scope.
 
-(* For every list of reader blocks, of any size and nesting, in which every list item starts
-   with a paragraph, a heading or a list (or is empty), for every note key and every arena:
+(* For EVERY list of reader blocks, of any size and nesting, for every note key and every arena:
    the builder returns normally.  The fuel the model gives itself (4 * size + 8) is enough for
-   every such input, i.e. the mutual recursion process_blocks / process_sections /
-   process_section / section_block / block is well founded. *)
+   every input, i.e. the mutual recursion process_blocks / process_sections /
+   process_section / section_block / block is well founded.
+   (Before the repair of F-LEADPANIC the statement carried the hypothesis that every list item
+   starts with a paragraph, a heading or a list, or is empty.) *)
 Theorem C03_build_total :
   forall (a : arena) (key : string) (bs : list dblock),
-    Forall (fun b => item_leads_ok b = true) bs ->
     exists st, build_document a key bs = Ok st /\
                ext (a ++ [GN (KDocument key) None None None]) (b_arena st).
 Proof. exact build_document_total. Qed.
 Check C03_build_total :
   forall (a : arena) (key : string) (bs : list dblock),
-    Forall (fun b => item_leads_ok b = true) bs ->
     exists st, build_document a key bs = Ok st /\
                ext (a ++ [GN (KDocument key) None None None]) (b_arena st).
 Print Assumptions C03_build_total.
 
 (* Loading a whole library (Graph::import) and replacing the blocks of one note
-   (Graph::from_markdown, after the reader) never panic on that class. *)
+   (Graph::from_markdown, after the reader) never panic, whatever the blocks. *)
 Theorem C03_import_total :
-  forall notes : list (string * option string * list dblock),
-    Forall note_ok notes -> exists g, import notes = Ok g.
+  forall notes : list (string * option string * list dblock), exists g, import notes = Ok g.
 Proof. exact import_total. Qed.
 Check C03_import_total :
-  forall notes : list (string * option string * list dblock),
-    Forall note_ok notes -> exists g, import notes = Ok g.
+  forall notes : list (string * option string * list dblock), exists g, import notes = Ok g.
 Print Assumptions C03_import_total.
 
 Theorem C03_from_blocks_total :
-  forall (g : graph) key meta bs,
-    Forall (fun b => item_leads_ok b = true) bs -> exists g', from_blocks g key meta bs = Ok g'.
+  forall (g : graph) key meta bs, exists g', from_blocks g key meta bs = Ok g'.
 Proof. exact from_blocks_total. Qed.
 Check C03_from_blocks_total :
-  forall (g : graph) key meta bs,
-    Forall (fun b => item_leads_ok b = true) bs -> exists g', from_blocks g key meta bs = Ok g'.
+  forall (g : graph) key meta bs, exists g', from_blocks g key meta bs = Ok g'.
 Print Assumptions C03_from_blocks_total.
 
-(* The excluded class is a genuine defect of the pinned tree: a list item that starts with a
-   quote (or a code block, table, rule) panics `section_block` (known finding F-LEADPANIC). *)
-Theorem C03_build_refuted :
-  exists bs, build_document [] "n" bs = Panic "section block panic" /\
-             bs = [DBList [[DQuote (0, 1) [DPara (0, 1) [Str "q"]]]]].
-Proof. exact build_document_refuted. Qed.
-Check C03_build_refuted :
-  exists bs, build_document [] "n" bs = Panic "section block panic" /\
-             bs = [DBList [[DQuote (0, 1) [DPara (0, 1) [Str "q"]]]]].
-Print Assumptions C03_build_refuted.
-
-(* non-vacuity: a nested document with headings inside items, a list that starts an item and
-   a quote satisfies the hypothesis *)
-Example C03_hypothesis_example :
-  Forall (fun b => item_leads_ok b = true)
-    [DHeader (0,1) 2 [Str "t"];
-     DBList [[DHeader (2,3) 1 [Str "h"]; DCode (3,5) None "c"]; []; [DOList [[DPara (6,7) [Str "x"]]]]];
-     DQuote (8,9) [DRule (8,9); DBList [[DPara (9,10) [Str "y"]; DQuote (10,11) []]]]].
-Proof. repeat constructor. Qed.
+(* The formerly excluded class (known finding F-LEADPANIC, repaired): a list item that starts with
+   a quote is a section without text over the quote. *)
+Theorem C03_build_lead_quote :
+  option_map (fun st => map g_kind (b_arena st))
+    (match build_document [] "n" [DBList [[DQuote (0, 1) [DPara (0, 1) [Str "q"]]]]] with Ok st => Some st | Panic _ => None end)
+  = Some [KDocument "n"; KBList; KSection []; KQuote; KLeaf [Str "q"]].
+Proof. exact build_document_lead_quote. Qed.
+Check C03_build_lead_quote :
+  option_map (fun st => map g_kind (b_arena st))
+    (match build_document [] "n" [DBList [[DQuote (0, 1) [DPara (0, 1) [Str "q"]]]]] with Ok st => Some st | Panic _ => None end)
+  = Some [KDocument "n"; KBList; KSection []; KQuote; KLeaf [Str "q"]].
+Print Assumptions C03_build_lead_quote.
